@@ -55,11 +55,13 @@ pub mod ufg {
     #[allow(static_mut_refs)]
     pub fn call(a: u32, k: u32) -> u32 {
         unsafe {
-            let mut y: u32 = kani::any();
-            let mut found = false;
+            // explicit Ackermann constraints: the result is fresh, and agrees with every recorded call on equal arguments
+            // (satisfiable by induction: recorded calls are pairwise consistent).  Much easier for the SAT solver than a
+            // first-match chain, because the instance needed (dec round j against enc round 31-j) is directly available.
+            let y: u32 = kani::any();
             let mut i = 0;
             while i < N {
-                if !found && A[i] == a && K[i] == k { y = Y[i]; found = true; }
+                kani::assume(!(A[i] == a && K[i] == k) || Y[i] == y);
                 i += 1;
             }
             assert!(N < MAXC);
@@ -156,7 +158,9 @@ macro_rules! roundtrip {
             let b: [u8; 8] = kani::any();
             let mut blk = Array(b);
             cipher::BlockCipherEncrypt::encrypt_block(&c, &mut blk);
+            kani::cover!(blk.0[0] != b[0] && blk.0[7] == b[7]); // the Ackermann assumptions are not vacuous
             cipher::BlockCipherDecrypt::decrypt_block(&c, &mut blk);
+            kani::cover!();
             let mut i = 0;
             while i < 8 {
                 assert!(blk.0[i] == b[i]);
@@ -171,7 +175,9 @@ macro_rules! roundtrip {
             let b: [u8; 8] = kani::any();
             let mut blk = Array(b);
             cipher::BlockCipherDecrypt::decrypt_block(&c, &mut blk);
+            kani::cover!(blk.0[0] != b[0] && blk.0[7] == b[7]); // the Ackermann assumptions are not vacuous
             cipher::BlockCipherEncrypt::encrypt_block(&c, &mut blk);
+            kani::cover!();
             let mut i = 0;
             while i < 8 {
                 assert!(blk.0[i] == b[i]);
@@ -571,8 +577,8 @@ fn c_any_table_dec() {
     assert!(be64(&blk.0) == r::decrypt_words(&pi, &c.key, be64(&b)));
 }
 
-// ---------------------------------------------------------------- monolithic variants: no stub anywhere
-// @ob name=c_magma_mono_enc props=C07,C20 fn=magma::Magma::new,magma::Magma::encrypt_block,magma::sboxes::SboxExt::g,magma::sboxes::SboxExt::apply_sbox timeout=900
+// ---------------------------------------------------------------- monolithic variants: no stub anywhere (thorough tier)
+// @ob name=c_magma_mono_enc props=C07,C20 tier=thorough fn=magma::Magma::new,magma::Magma::encrypt_block,magma::sboxes::SboxExt::g,magma::sboxes::SboxExt::apply_sbox timeout=1800
 #[kani::proof]
 #[kani::unwind(33)]
 fn c_magma_mono_enc() {
@@ -583,7 +589,7 @@ fn c_magma_mono_enc() {
     cipher::BlockCipherEncrypt::encrypt_block(&c, &mut blk);
     assert!(be64(&blk.0) == r::magma_encrypt(&k, be64(&b)));
 }
-// @ob name=c_magma_mono_dec props=C07,C20 fn=magma::Magma::new,magma::Magma::decrypt_block,magma::sboxes::SboxExt::g,magma::sboxes::SboxExt::apply_sbox timeout=900
+// @ob name=c_magma_mono_dec props=C07,C20 tier=thorough fn=magma::Magma::new,magma::Magma::decrypt_block,magma::sboxes::SboxExt::g,magma::sboxes::SboxExt::apply_sbox timeout=1800
 #[kani::proof]
 #[kani::unwind(33)]
 fn c_magma_mono_dec() {
